@@ -4,7 +4,7 @@
    [fixed c = true] is the repaired retry path (fixes/C19-D27.patch). *)
 From Coq Require Import ZArith List Bool.
 Import ListNotations.
-From SCMO Require Import Lib.Val Model.C19 Proofs.C19 Proofs.C19_split.
+From SCMO Require Import Lib.Val Model.C19 Proofs.C19 Proofs.C19_split Proofs.C19_leak.
 Open Scope Z_scope.
 
 (* MAIN.  For every write sequence, every maxHandles / pruneEvery (any integers) and every fault
@@ -59,6 +59,15 @@ Theorem C19_handles_bounded : forall c orc init ops k r,
 Proof. exact handles_bounded. Qed.
 Print Assumptions C19_handles_bounded.
 
+(* ANY oracle: after close() the writer has closed exactly as many descriptors as it opened - whether the run
+   completed or stopped at a raise (n_opened / n_closed count the successful open() and the close() calls
+   of the OS-call trace) *)
+Theorem C19_no_leak : forall c orc init ops k r, fixed c = true ->
+  run_ops c orc init ops = (k, r) ->
+  n_opened (trace (close_all (state_of r))) = n_closed (trace (close_all (state_of r))).
+Proof. exact no_leak. Qed.
+Print Assumptions C19_no_leak.
+
 (* the concrete fault scripts of the correspondence check: script_goodb (mode 1 of run_C19) implies
    the oracle hypothesis of C19_content *)
 Theorem C19_script_good : forall s ops, script_goodb s ops = true ->
@@ -78,6 +87,13 @@ Theorem C19_unrepaired_refuted :
   end.
 Proof. exact unrepaired_refuted. Qed.
 Print Assumptions C19_unrepaired_refuted.
+
+(* ... and one descriptor is never closed on that input (code as found) *)
+Theorem C19_unrepaired_leaks :
+  let tr := trace (close_all (state_of (snd (run_ops d27_cfg (script_oracle d27_script) (fun _ => None) d27_ops)))) in
+  n_opened tr = S (n_closed tr).
+Proof. exact unrepaired_leaks. Qed.
+Print Assumptions C19_unrepaired_leaks.
 
 (* non-vacuity: the same input on the repaired model satisfies the hypotheses of C19_content, goes through
    the recovery branch (a failed open with one handle open, close-all, retry) and a re-open in append mode *)
